@@ -729,7 +729,12 @@ def date_atom():
 
 @st.composite
 def bool_atom(draw, depth, loopvar, fields):
-    c = draw(st.integers(0, 15))
+    c = draw(st.integers(0, 16))
+    if c == 16:
+        c = 11
+        force_walrus = True
+    else:
+        force_walrus = False
     if c == 15 and loopvar is None:
         # membership of a value in a LIST built from supplemental rows (not a substring test): exact for numbers, letter case as Python for strings
         v = draw(st.sampled_from(['r', 'o']))
@@ -777,7 +782,7 @@ def bool_atom(draw, depth, loopvar, fields):
         return ['exists', draw(st.one_of(s0(), st.sampled_from(FIELD_KEYS + ['nosuch']).map(lambda k: ['field', k])))]
     if c == 10:
         return ['lit', draw(st.booleans())] if draw(st.booleans()) else draw(st.sampled_from([['lit', True, 'true'], ['lit', False, 'false'], ['lit', True, 'TRUE']]))
-    if c == 11 and loopvar is None and depth > 0 and draw(st.integers(0, 3)) == 0:
+    if c == 11 and loopvar is None and (force_walrus or (depth > 0 and draw(st.integers(0, 3)) == 0)):
         # := inside a comprehension / generator binds in the enclosing expression (Python semantics) and is read afterwards
         v = draw(st.sampled_from(['r', 'o']))
         src = ['name', draw(st.sampled_from(['orders', 'receipts']))]
